@@ -200,6 +200,32 @@ int main (int argc, char **argv)
 		{
 			do_access ();
 		}
+		else if (!strcmp (op, "INTSOL"))
+		{
+			/* values the rational simplex holds internally (before ILLlib_solution's sign reversal for MAX):
+			 * INTSOL <optimal flag> <objval> | piz[nrows] | dz of the structural columns (0 when basic) */
+			mpq_lpinfo *lp = P->lp;
+			mpq_ILLlpdata *q = P->qslp;
+			int i;
+			if (!lp || !lp->piz || !lp->dz || !lp->vstat || !lp->vindex || lp->nrows != q->nrows || lp->ncols != q->ncols)
+				printf ("INTSOL NA\n");
+			else
+			{
+				printf ("INTSOL %d ", lp->basisstat.optimal);
+				qsx_print_q (stdout, lp->objval);
+				fputs (" |", stdout);
+				qsx_print_qarr (stdout, lp->piz, lp->nrows);
+				fputs (" |", stdout);
+				for (i = 0; i < q->nstruct; i++)
+				{
+					int c = q->structmap[i];
+					fputc (' ', stdout);
+					if (lp->vstat[c] == STAT_BASIC) fputs ("0", stdout);
+					else qsx_print_q (stdout, lp->dz[lp->vindex[c]]);
+				}
+				putchar ('\n');
+			}
+		}
 		else if (!strcmp (op, "GETBASIS"))
 		{
 			QSbasis *B = mpq_QSget_basis (P);
